@@ -65,6 +65,12 @@ type C08Detail struct {
 
 var c08Tags = []string{"valid", "a", "b", "A", "wechatMiniProgramV1", "wechatMiniProgramV2"}
 
+// pairs of tag names that a short digest cannot tell apart (FNV-1 / FNV-1a 32, CRC-32 IEEE / Castagnoli, Adler-32,
+// h*31+c, h*33+c, sdbm, the low half and the folded halves of FNV-1a 64; "costarring"/"liquid" is the textbook
+// FNV-1a 32 pair), plus names that differ only in the order or the sum of their letters: a name is its spelling
+var c08TwinTags = [][2]string{{"costarring", "liquid"}, {"kdtjpcw", "ydmeauj"}, {"meallgyo", "gqdfb"}, {"vviyrl", "xlwta"}, {"arsexfwh", "kteewmv"}, {"qctshxc", "uneazwd"},
+	{"tusogpw", "qdaezt"}, {"nnfma", "daxlhdxc"}, {"dnpxxwp", "crssdt"}, {"iupul", "tptyvaxa"}, {"rpplw", "ewboz"}, {"Aa", "BB"}, {"abc", "cba"}, {"ad", "bc"}}
+
 // c08Build builds the history; it depends on (seed, tier) only, so every child and the parent build
 // the very same types, values and calls.
 func c08Build(rng *rand.Rand, nHot, nCold, rounds, hotBlock int) *c08Hist {
@@ -181,6 +187,29 @@ func c08Build(rng *rand.Rand, nHot, nCold, rounds, hotBlock int) *c08Hist {
 		h.HotTypes = append(h.HotTypes, wt)
 		h.HotVals = append(h.HotVals, vals)
 	}
+	// twin tag names: one small type per pair, judged now under one name, now under the other
+	ownTags := map[int][]string{}
+	for i, tw := range c08TwinTags {
+		tagN := fmt.Sprintf(`%s:"ge=%d|m_tw%d_n_1" %s:"le=%d|m_tw%d_n_2" valid:"required|m_tw%d_n"`, tw[0], 4+i%3, i, tw[1], 2+i%3, i, i)
+		tagS := fmt.Sprintf(`%s:"required|m_tw%d_s_1" %s:"to=2~3|m_tw%d_s_2"`, tw[0], i, tw[1], i)
+		t := reflect.StructOf([]reflect.StructField{{Name: "N", Type: gen.TInt, Tag: reflect.StructTag(tagN)}, {Name: "S", Type: gen.TString, Tag: reflect.StructTag(tagS)}})
+		vals := []reflect.Value{}
+		for j := 0; j < 3; j++ {
+			v := reflect.New(t)
+			v.Elem().Field(0).SetInt(int64(j * 3)) // 0, 3, 6: the two names disagree on 3 and on 6
+			v.Elem().Field(1).SetString([]string{"", "a", "abcd"}[j])
+			vals = append(vals, v)
+		}
+		ownTags[len(h.HotTypes)] = []string{tw[0], tw[1], tw[0], tw[1], "valid"}
+		h.HotTypes = append(h.HotTypes, t)
+		h.HotVals = append(h.HotVals, vals)
+	}
+	tagsOf := func(ti int) []string {
+		if o, ok := ownTags[ti]; ok {
+			return o
+		}
+		return c08Tags
+	}
 	nHot = len(h.HotTypes)
 	for i := 0; i < nCold; i++ {
 		// distinct tag text => distinct reflect.Type: a cheap way to have more types than any cache holds
@@ -201,7 +230,7 @@ func c08Build(rng *rand.Rand, nHot, nCold, rounds, hotBlock int) *c08Hist {
 		t := h.HotTypes[ti]
 		c := c08Call{Hot: ti, Cold: -1, Val: rng.Intn(3), Entry: rng.Intn(4), Tag: "valid"}
 		if c.Entry <= 1 {
-			c.Tag = c08Tags[rng.Intn(len(c08Tags))]
+			c.Tag = tagsOf(ti)[rng.Intn(len(tagsOf(ti)))]
 		}
 		if c.Entry == 1 || c.Entry == 2 {
 			c.RM = map[string]string{}
@@ -225,9 +254,9 @@ func c08Build(rng *rand.Rand, nHot, nCold, rounds, hotBlock int) *c08Hist {
 			switch rng.Intn(5) {
 			case 0: // A-then-B on the same type
 				c1 := hotCall(ti)
-				c1.Entry, c1.Tag, c1.RM = 0, c08Tags[rng.Intn(len(c08Tags))], nil
+				c1.Entry, c1.Tag, c1.RM = 0, tagsOf(ti)[rng.Intn(len(tagsOf(ti)))], nil
 				c2 := c1
-				c2.Tag = c08Tags[rng.Intn(len(c08Tags))]
+				c2.Tag = tagsOf(ti)[rng.Intn(len(tagsOf(ti)))]
 				add(c1)
 				add(c2)
 				k++
@@ -235,7 +264,11 @@ func c08Build(rng *rand.Rand, nHot, nCold, rounds, hotBlock int) *c08Hist {
 				c1 := hotCall(ti)
 				c1.Entry, c1.RM = 0, nil
 				c2 := c1
-				c2.Tag = c08Tags[(indexOf(c08Tags, c1.Tag)+1+rng.Intn(len(c08Tags)-1))%len(c08Tags)]
+				if tg := tagsOf(ti); len(tg) != len(c08Tags) {
+					c2.Tag = tg[(indexOf(tg, c1.Tag)+1)%len(tg)] // the twin name
+				} else {
+					c2.Tag = c08Tags[(indexOf(c08Tags, c1.Tag)+1+rng.Intn(len(c08Tags)-1))%len(c08Tags)]
+				}
 				add(c1)
 				add(c2)
 				add(c1)
@@ -249,7 +282,7 @@ func c08Build(rng *rand.Rand, nHot, nCold, rounds, hotBlock int) *c08Hist {
 				// (unknown names become resolvable, built-ins are replaced) — then the plain call
 				c1 := hotCall(ti)
 				c1.Entry, c1.RM = 4, nil
-				c1.Tag = c08Tags[rng.Intn(len(c08Tags))]
+				c1.Tag = tagsOf(ti)[rng.Intn(len(tagsOf(ti)))]
 				c1.Fns = c08RuleNames(h.HotTypes[ti], c1.Tag, rng)
 				c2 := c1
 				c2.Entry, c2.Fns = 0, nil
